@@ -135,6 +135,19 @@ def run_param_matrix(case):
             lines = ascriptions(spec, cfg)
             body = E.enum_item_text(spec, cfg) + HELPERS + "    pub fn sig() {\n" + "\n".join("        " + l for l in lines) + "\n    }"
             items.append((len(items), body))
+    # repr matrix: every repr x (gapless at the type MIN, gapless across zero / from 3, holes touching both limits)
+    # x every legal iterator mode, all features on
+    for r in M.REPRS:
+        lo, hi = M.repr_domain(r)
+        for vals in ([lo, lo + 1, lo + 2], ([-2, -1, 0, 1] if lo < 0 else [3, 4, 5, 6]), [lo, lo + 2, hi - 1, hi]):
+            spec = C.scope_spec(r, vals)
+            m = M.RefEnum(spec)
+            for md in S.legal_iter_modes(m, True):
+                cfg = S.simple_config([f for f in E.ALL_FEATURES if f != "sorted"], {"iter": md} if md else {})
+                descr.append(cfg)
+                lines = ascriptions(spec, cfg)
+                body = E.enum_item_text(spec, cfg) + HELPERS + "    pub fn sig() {\n" + "\n".join("        " + l for l in lines) + "\n    }"
+                items.append((len(items), body))
     bad = C.failing_items(items)
     for i, err in bad[:3]:
         out.violate("a generated item does not have its documented signature (parameter matrix)", config=J.cfg_text(descr[i]), stderr=err)
